@@ -852,6 +852,7 @@ class Model:
     def __init__(self):
         self.exe = common.build_driver('rah')
         self.cache = {}
+        self.analysed = 0
         self.digits = read_gen_constants()['SIG_DIGITS']
 
     def run(self, jobs):
@@ -898,10 +899,15 @@ def judge(model, case, pens, reads, obs, logs=None):
                 m['logged'], logs), m
     if d is None:
         return 'agree', None, m
+    if model.analysed >= 40:
+        # a run that is failing wholesale: 40 confirmed disagreements were
+        # analysed against the model's trace, the rest are reported as they are
+        return 'disagree', d, m
     mt = model.trace(case, pens)
     if mode == 'exact':
         lost = exactness_lost(case, mt)
         if lost is None:
+            model.analysed += 1
             return 'disagree', d, m
         d2 = compare_reads(mode, reads, obs, m, strict_exact=False)
         if d2 is None:
@@ -910,6 +916,7 @@ def judge(model, case, pens, reads, obs, logs=None):
     amb = ambiguity(case, mt, model.digits)
     if amb:
         return 'ambiguous', amb[:3], m
+    model.analysed += 1
     return 'disagree', d, m
 
 
@@ -955,16 +962,15 @@ def oracle_reads(case, reads, obs, max_ticks, fresh=True):
                 return 'hardener %d: resonances sum to %r, unsimulated sum is %r' % (
                     i, float(s), float(want))
         nz = [a for a in range(4) if prof[a] != 0]
-        if simulated and len(nz) == 1 and r['shift'] and r['dur'] and \
-                all(x['shift'] and x['dur'] for x in e['rahs'] if x['running']):
+        # saturation is claimed for ONE running hardener that reaches it within the
+        # tick limit by steps that are not lost in the 10-digit rounding
+        if simulated and len(nz) == 1 and r['shift'] and r['dur'] and len(e['order']) == 1:
             k = nz[0]
             sh = r['shift'] / 100
             steps = [(1 - r['res'][a]) / sh for a in range(4) if a != k]
             clean = all(q == math.floor(q) or (q - math.floor(q)) * sh >= F(1, 10 ** 6)
                         for q in steps)
-            ratio = max(x['dur'] for x in e['rahs'] if x['running']) / r['dur']
-            if clean and sh >= F(1, 1000) and \
-                    (max(math.ceil(q) for q in steps) + 3) * ratio * len(e['order']) < max_ticks / 2:
+            if clean and sh >= F(1, 1000) and max(math.ceil(q) for q in steps) + 3 < max_ticks:
                 for a in range(4):
                     want = sum(r['res']) - 3 if a == k else F(1)
                     if vals[a] is not None and not close(F(vals[a]), want, 1e-9):
@@ -1023,6 +1029,63 @@ def oracle_history(hist, recs, max_ticks):
         if why:
             return k, why
     return None
+
+
+def valid_history(hist):
+    """every op applicable (implant removals refer to existing implants) and all
+    inputs within the quantifier's ranges"""
+    case = hist['init']
+    try:
+        for op in hist['ops']:
+            if op[0] == 'tuner-' and not (0 <= op[1] < len(case['tuners'])):
+                return False
+            if op[0] == 'read':
+                n = len(case['rahs'])
+                for tgt, a in op[1]:
+                    if tgt == 'ship':
+                        if case['ship'] is None or not case['ship']['loaded']:
+                            return False
+                    elif not (0 <= tgt < n):
+                        return False
+            case = apply_case(case, op)
+            if not in_range(case):
+                return False
+    except Exception:  # noqa
+        return False
+    return True
+
+
+def shrink_history(hist, max_ticks, budget=60):
+    """greedy one-at-a-time removal of operations (the final read stays) while
+    the direct oracle still fails at the final read"""
+    def fails(h):
+        if not valid_history(h):
+            return False
+        try:
+            recs = run_history_impl(h)
+        except Exception:  # noqa
+            return False
+        if not recs:
+            return False
+        r = recs[-1]
+        return oracle_reads(r['case'], r['reads'], r['obs'], max_ticks, fresh=True) is not None
+    cur = {'init': hist['init'], 'ops': list(hist['ops'])}
+    if not fails(cur):
+        return hist
+    changed = True
+    while changed and budget > 0:
+        changed = False
+        for k in range(len(cur['ops']) - 2, -1, -1):
+            if budget <= 0:
+                break
+            cand = {'init': cur['init'], 'ops': cur['ops'][:k] + cur['ops'][k + 1:]}
+            budget -= 1
+            if fails(cand):
+                cur = cand
+                changed = True
+    # fewer hardeners / reads are not attempted: the operation list is what
+    # explains the failure
+    return cur
 
 
 def history_prefix(hist, nreads):
@@ -1106,6 +1169,12 @@ def run(rep):
         model.run(jobs)
         for k, (c, r) in enumerate(zip(setups, sres)):
             v, d, m = judge(model, c, pens[c['mode']], c['reads'], r['obs'], r['logs'])
+            if v in ('ambiguous', 'inexact_ok'):
+                # a numerical excuse is accepted only if the implementation's own
+                # outputs obey the laws
+                why = oracle_setup(c, r, max_ticks)
+                if why:
+                    v, d = 'disagree', why
             by_mode[c['mode']][v] += 1
             nvalues += len(c['reads'])
             h = m['status'] if m['status'] != 'ok' else m['how'].split(':')[0]
@@ -1119,6 +1188,13 @@ def run(rep):
             for j, r in enumerate(recs):
                 c = r['case']
                 v, d, m = judge(model, c, pens[c['mode']], r['reads'], r['obs'])
+                if v in ('ambiguous', 'inexact_ok'):
+                    # ... and only if a fit built from scratch with the current
+                    # inputs reads the same values (binary64 noise is reproducible,
+                    # dependence on the history is not noise)
+                    why = oracle_reads(c, r['reads'], r['obs'], max_ticks, fresh=True)
+                    if why:
+                        v, d = 'disagree', why
                 by_mode[c['mode']][v] += 1
                 nvalues += len(r['reads'])
                 if v == 'disagree' and first is None:
@@ -1152,6 +1228,18 @@ def run(rep):
     if hists:
         rep.cov['samples'].append({'history': hists[-1], 'impl_reads': [
             {'reads': r['reads'], 'obs': r['obs']} for r in hres[-1]]})
+    fixed = []
+    for f in common.known_findings('C12'):
+        if f.get('status') == 'fixed' and f.get('witness', '').startswith('corpus/C12/'):
+            w = json.load(open(os.path.join(common.VERIF, f['witness'])))['case']
+            idx = [k for k, h in enumerate(hists) if h == w]
+            ok = bool(idx) and all(k not in [x[0] for x in dis_hist] for k in idx) and \
+                oracle_history(w, hres[idx[0]], max_ticks) is None if idx else False
+            fixed.append({'id': f['id'], 'witness': f['witness'], 'fix_commit': f.get('fix_commit'),
+                          'passes': bool(ok)})
+            if idx and not ok and not [x for x in dis_hist if x[0] in idx]:
+                dis_hist.insert(0, (idx[0], 0, 'witness of fixed finding %s fails again' % f['id']))
+    rep.cov['fixed_findings_replayed'] = fixed
     finish(rep, setups, sres, hists, hres, dis_set, dis_hist, max_ticks)
 
 
@@ -1162,7 +1250,8 @@ def finish(rep, setups, sres, hists, hres, dis_set, dis_hist, max_ticks):
     for k, j, d in dis_hist:
         hit = oracle_history(hists[k], hres[k], max_ticks)
         if hit:
-            rep.violation({'kind': 'input', 'history': history_prefix(hists[k], hit[0] + 1),
+            small = shrink_history(history_prefix(hists[k], hit[0] + 1), max_ticks)
+            rep.violation({'kind': 'input', 'history': small,
                            'fails': hit[1], 'disagreement': d, 'broken': rep.broken})
             return
     for k, d in dis_set:
@@ -1180,25 +1269,43 @@ def finish(rep, setups, sres, hists, hres, dis_set, dis_hist, max_ticks):
     for k in range(len(hists)):
         hit = oracle_history(hists[k], hres[k], max_ticks)
         if hit:
-            rep.violation({'kind': 'input', 'history': history_prefix(hists[k], hit[0] + 1),
+            small = shrink_history(history_prefix(hists[k], hit[0] + 1), max_ticks)
+            rep.violation({'kind': 'input', 'history': small,
                            'fails': hit[1], 'broken': rep.broken})
             return
     # no input on which the implementation's own outputs break the law: the
     # disagreement with the model is the evidence ("equal to the documented
     # process"); the disagreeing input is the replay
-    if dis_hist:
-        k, j, d = dis_hist[0]
-        rep.violation({'kind': 'input', 'history': history_prefix(hists[k], j + 1),
-                       'fails': 'differs from the adaptation law (model): ' + str(d),
-                       'model_disagreement': True, 'broken': rep.broken,
-                       'more': len(dis_hist) + len(dis_set) - 1})
-        return
     if dis_set:
         k, d = dis_set[0]
         rep.violation({'kind': 'input', 'case': setups[k], 'impl': sres[k],
                        'fails': 'differs from the adaptation law (model): ' + str(d),
                        'model_disagreement': True, 'broken': rep.broken,
-                       'more': len(dis_set) - 1})
+                       'more': len(dis_set) + len(dis_hist) - 1})
+        return
+    if dis_hist:
+        k, j, d = dis_hist[0]
+        # the values at a read depend on the current inputs only: try to show
+        # the same difference on a fit built from scratch with those inputs
+        try:
+            rec = hres[k][j]
+            c2 = reorder_for_fresh(rec['case'])
+            c2['reads'] = [[remap_fresh(rec['case'], t), a] for t, a in rec['reads']]
+            c2.pop('_fresh_idx', None)
+            res2 = run_setup_impl(c2)
+            v, d2, _ = judge(Model(), c2, set_mode(c2['mode']), c2['reads'], res2['obs'])
+            if v == 'disagree':
+                rep.violation({'kind': 'input', 'case': c2, 'impl': res2,
+                               'fails': 'differs from the adaptation law (model): ' + str(d2),
+                               'model_disagreement': True, 'broken': rep.broken,
+                               'more': len(dis_hist) - 1})
+                return
+        except Exception:  # noqa
+            pass
+        rep.violation({'kind': 'input', 'history': history_prefix(hists[k], j + 1),
+                       'fails': 'differs from the adaptation law (model): ' + str(d),
+                       'model_disagreement': True, 'broken': rep.broken,
+                       'more': len(dis_hist) - 1})
         return
     rep.violation({'kind': 'obligation', 'broken': rep.broken}, found_input=False)
 
